@@ -140,6 +140,11 @@ func main() {
 				os.Exit(2)
 			}
 			rows = append(rows, row{i, res.Digest + " v=" + strconv.Itoa(len(res.Violations))})
+			if os.Getenv("VERIF_DEBUG_DIGEST") != "" {
+				for _, v := range res.Violations {
+					fmt.Fprintf(os.Stderr, "run %d: %s %s | %.160s\n", i, v.Property, v.Signature(), v.Detail)
+				}
+			}
 		}
 		sort.Slice(rows, func(a, b int) bool { return rows[a].i < rows[b].i })
 		for _, r := range rows {
